@@ -9,7 +9,7 @@ from ..refs import tree
 ID = "C18"
 RULE = ("calendars built through the API or parsed from generated text, with zoned values in DTSTART/DTEND/DUE/RECURRENCE-ID/RDATE/EXDATE (lists, periods; in parsed text also date lists whose TZID is unknown, a Windows name or slash-prefixed), "
         "FREEBUSY and explicit TZID parameters on arbitrary (X-, text) properties at depth <= 64; ids: known Olson ids (UTC, Etc/UTC and GMT as literal TZID parameters among them), unknown ids, Windows names and "
-        "'/'-prefixed ids; VTIMEZONEs already present drawn from {used, unused, unknown id, duplicate, without TZID}; 1-3 repeated calls with random "
+        "'/'-prefixed ids; VTIMEZONEs already present drawn from {used, unused, unknown id, duplicate, without TZID, TZID added twice, carrying TZID parameters themselves}; 1-3 repeated calls with random "
         "date windows; both providers. Oracles: get_used_tzids() == the TZID parameters found by the R8 observation on every value of every nested "
         "component; get_missing_tzids() == used - present; neither raises; after add_missing_timezones() every plainly known used id has exactly one "
         "VTIMEZONE (or its earlier count), plainly unknown ids are still missing, no VTIMEZONE with a foreign TZID appears, and a further call leaves "
@@ -135,6 +135,16 @@ def check_case(ctx, case):
         cal.add_component(tz)
         if rng.randrange(4) == 0:
             cal.add_component(minimal_vtimezone(tzid))     # duplicate
+    # TZID carriers inside the VTIMEZONEs themselves ("any property of any nested component"), and a VTIMEZONE whose TZID was added twice
+    zones_now = [t for t in cal.walk("VTIMEZONE")]
+    if zones_now and rng.randrange(3) == 0:
+        host = rng.choice(zones_now)
+        inner = host.subcomponents[0] if host.subcomponents and rng.randrange(2) else host
+        inner.add("x-zone-note", "v", parameters={"TZID": rng.choice(KNOWN + UNKNOWN)})
+    if rng.randrange(8) == 0:
+        twice = minimal_vtimezone(rng.choice(KNOWN))
+        twice.add("TZID", rng.choice(KNOWN + UNKNOWN))
+        cal.add_component(twice)
     want_used = used_from_obs(tree.obs(cal), set())
     ctx.nontrivial(len(want_used) >= 2)
     present = [str(t["TZID"]) for t in cal.walk("VTIMEZONE") if "TZID" in t]
